@@ -332,6 +332,33 @@ def c11_one_of_two_outputs(i1: int, i2: int, k: int, other_used: bool, other_is_
     return (not r) or r.bindings["x"] is v["a"]
 
 
+# ---------------------------------------------------------------- class 12: numeric constant under commutation
+_R12 = RR.RewriteRule(lambda op, x: op.Mul(x, 1000.0), lambda op, x: op.Identity(x))
+R12 = _R12.commute()
+P12_plain = RR.Pattern(lambda op, x: op.Mul(x, 1000.0))
+# |c - 1000| vs the documented tolerance max(rel_tol * max(|c|, 1000), abs_tol) = ~0.01 with rel_tol=1e-5, abs_tol=1e-8
+CVALS12 = [1000.0, 1000.005, 999.995, 1000.009, 1000.02, 999.98, 1000.00001, 1000.0001, 1001.0, 0.0, -1000.0, 1000]
+
+
+def c12_commute_const(i2: int, ci: int, swapped: bool, is_const: bool, commuted: bool) -> bool:
+    """the swapped variants produced by commute() must compare constants with the same tolerance as the pattern itself
+    vp-pre: 0 <= i2 < 5 and 0 <= ci < 12
+    """
+    cv = CVALS12[ci]
+    spec = [("", OPS[i2], ["c", "a"] if swapped else ["a", "c"], [], 1)]
+    m, g, n, v = mk(spec, ["a", "c"], ["v0"])
+    g.inputs.pop()  # c is a free constant value, not a graph input
+    if is_const:
+        v["c"].const_value = FakeTensor(cv, 0)
+    if commuted:
+        got = any(bool(r.match(m, g, n[0])) for r in R12)
+    else:
+        got = bool(P12_plain.match(m, g, n[0]))
+    close = abs(cv - 1000.0) <= max(1e-5 * max(abs(cv), 1000.0), 1e-8)
+    expected = OPS[i2] == "Mul" and is_const and close and (commuted or not swapped)
+    return got == expected
+
+
 def _ob(name, timeout=200, bounds="", tt=None, slice_=None):
     if slice_ is not None:
         var, n = slice_
@@ -358,5 +385,6 @@ OBLIGATIONS = [
     *_ob("c3_const", 300, "constant value: bounded symbolic index into 12 edge values around rel_tol 1e-5 / abs_tol 1e-8, rank 0..2, const / graph-input flags", slice_=("i2", 5)),
     _ob("c4_attrs", 300), _ob("c5_inputs"), _ob("c6_or", 300), _ob("c7_two_outputs"), _ob("c8_commute", 400),
     *_ob("c9_three", 300, tt=900, slice_=("i0", 5)), _ob("c10_or_shared_var", 300), _ob("c10b_or_plain_alt", 300),
+    _ob("c12_commute_const", 300, "constant value: bounded symbolic index into 12 values around the tolerance of 1000.0; op-type index, operand order, commuted or plain pattern symbolic"),
     _ob("c11_one_of_two_outputs", 300, "host leaves symbolic: op-type indices, which of the two outputs the pattern returns, whether the other output / the inner value is used outside or is a graph output"),
 ]
